@@ -110,6 +110,12 @@ fn main() {
 		eprintln!("unknown property/command {prop}");
 		std::process::exit(2);
 	}
+	#[cfg(yata_verif)]
+	{
+		let (a, c) = yata::verif::counters();
+		r.count("hook_unchecked_accesses_observed", a);
+		r.count("hook_raw_copies_observed", c);
+	}
 	let mut j = r.to_json();
 	j["build"] = Value::String(build_id());
 	println!("YVREPORT {}", serde_json::to_string(&j).unwrap());
